@@ -324,7 +324,7 @@ class Gen:
         return None
 
     def g_reattach(self):
-        rel = [t for t in self.released if t in self.T and self.T[t]['parent'] is None]
+        rel = [t for t in sorted(self.released) if t in self.T and self.T[t]['parent'] is None]
         t = self.pick(rel)
         if not t:
             return None
